@@ -651,10 +651,12 @@ static int fix_names (
 		n = strlen (old_name);
 		strcpy (buf, old_name);
 		if (!EGLPNUM_TYPENAME_ILLis_lp_name_char (buf[0], 1) ||
-				!strcasecmp (buf, "inf") || !strcasecmp (buf, "infinity"))
+				!strcasecmp (buf, "inf") || !strcasecmp (buf, "infinity") ||
+				!strcasecmp (buf, "free"))
 		{
-			/* also the two words the reader takes for the value infinity when
-			 * they start a bound definition */
+			/* also the words the reader takes for the value infinity, or for the
+			 * keyword free after a bound definition that ends with a column
+			 * name, when they start a bound definition */
 			sprintf (buf, "%d", i);
 		}
 		else
